@@ -116,7 +116,7 @@ impl Prop for C04 {
     type Case = Case;
     const ID: &'static str = "C04";
     const NUM: u64 = 4;
-    const RULE: &'static str = "random leg: digraphs on 0..order (order 1..16 quick / 1..60 thorough; uniform densities and 15 structured families) in all five representations with empty/single/multiple distinct sources; enum leg: every digraph of order <=3 (quick) / <=4 (thorough) times a fixed list of source lists. About one random case in 25 has a large order (17..140, weighted towards 63..66, 96, 127..130, 140; at most 700 arcs). Non-trivial = at least two distinct non-zero BFS levels and some vertex with in-arcs from two different levels; distinct = distinct serialised case.";
+    const RULE: &'static str = "random leg: digraphs on 0..order (order 1..16 quick / 1..60 thorough; uniform densities and 15 structured families) in all five representations with empty/single/multiple distinct sources; enum leg: every digraph of order <=3 (quick) / <=4 (thorough) times a fixed list of source lists. About one random case in 25 has a large order (17..140, weighted towards 63..66, 96, 127..130, 140; at most 700 arcs). The Bfs / BfsDist iterators are also driven through next()-then-count/last/fold/nth/collect and mid-iteration clones (order <= 40). Non-trivial = at least two distinct non-zero BFS levels and some vertex with in-arcs from two different levels; distinct = distinct serialised case.";
     const ASSUMPTIONS: &'static [&'static str] = &[
         "order within a level is free",
         "sources are distinct and in range",
